@@ -5,7 +5,7 @@
 EXTENDS EventQueue, Json
 CONSTANT Depth
 Bound == TLCGet("level") <= Depth
-St == [queue |-> queue, cache |-> cache, regs |-> regs, nev |-> nev, sid |-> sid, infl |-> infl,
+St == [queue |-> queue, cache |-> cache, regs |-> regs, seen |-> seen, nev |-> nev, sid |-> sid, infl |-> infl,
        vack |-> vack, ninj |-> ninj, ndown |-> ndown]
 View == St
 MObs == PrintT(ToJson([st |-> St, obs |-> Obs])) /\ UNCHANGED vars
@@ -22,7 +22,7 @@ MSimFail(kind) == SimFail(kind) /\ PrintT(ToJson([src |-> St, act |-> [n |-> "Si
 MInject == Inject /\ PrintT(ToJson([src |-> St, act |-> [n |-> "Inject", e |-> 901 + ninj], out |-> [k |-> "none"], dst |-> St']))
 MTeardown == Teardown /\ PrintT(ToJson([src |-> St, act |-> [n |-> "Teardown"], out |-> [k |-> "none"], dst |-> St']))
 MNext == \/ MPollFwd \/ \E lost \in BOOLEAN : MPollCached(lost)
-         \/ \E i \in 1..8 : \E sw \in SUBSET (1..2) : \E lost \in BOOLEAN : MSimRespond(i, sw, lost)
+         \/ \E i \in 1..11 : \E sw \in SUBSET (1..2) : \E lost \in BOOLEAN : MSimRespond(i, sw, lost)
          \/ (\E kind \in FailKinds : MSimFail(kind)) \/ MInject \/ MTeardown \/ MObs
 MSpec == MInit /\ [][MNext]_vars
 ====
